@@ -832,6 +832,9 @@ def unit_dftkernel(mode):
                             if [u.id for u in a_] > [u.id for u in b_]:
                                 a_, b_ = b_, a_
                             out[i, j] = tm.mk_fn("KS", *(a_ + b_))
+                            # scikit-learn's one-argument form is NOT k(X, X) for every kernel: a noise term (WhiteKernel) is added on the diagonal only there
+                            if Ya is None and i == j:
+                                out[i, j] = out[i, j] + tm.var("noise_level_of_one_argument_form")
                     return out
                 S = Obj(ClassV("_AbstractSymKernel", [], mod))
                 S.fields["__call__"] = Builtin("abs.ksym", ksym)
@@ -955,12 +958,20 @@ def replay_kctrl(mode):
         rng = np.random.RandomState(5)
         nf, nctrl = 2, 4
         fl = FeatureList([UMap(i, 0.7 + 0.1 * i) for i in range(nf)])
-        dk = DFTKernel(K.DiffRBF(length_scale=np.array([0.9, 1.3])), fl, mode, lambda X0T: np.ones(X0T.shape[::2]))
+        kern = K.DiffRBF(length_scale=np.array([0.9, 1.3])) + K.DiffWhiteKernel(noise_level=0.3)
+        dk = DFTKernel(kern, fl, mode, lambda X0T: np.ones(X0T.shape[::2]))
         dk.X1ctrl = rng.rand(2, nctrl, nf) if mode == "POL" else rng.rand(nctrl, nf)
         Kmm = dk.get_kctrl()
         asym = float(np.max(np.abs(Kmm - Kmm.T)))
         ev = float(np.min(np.linalg.eigvalsh(0.5 * (Kmm + Kmm.T))))
-        return {"reproduced": bool(asym > 1e-12 or ev < -1e-10), "max_asymmetry": asym, "min_eigenvalue": ev, "mode": mode}
+        # the covariance between control points by the two-argument form of the kernel (what get_k evaluates against the same control points)
+        if mode == "POL":
+            a, b = dk.X1ctrl
+            ref = kern(a, a) * kern(b, b) + kern(a, b) * kern(b, a)
+        else:
+            ref = kern(dk.X1ctrl, dk.X1ctrl)
+        dev = float(np.max(np.abs(Kmm - ref)))
+        return {"reproduced": bool(asym > 1e-12 or ev < -1e-10 or dev > 1e-12), "max_asymmetry": asym, "min_eigenvalue": ev, "max |Kmm - two-argument kernel formula|": dev, "mode": mode}
     return replay
 
 
@@ -980,8 +991,56 @@ def unit_registry(ctx):
         ctx.assume("kernels.%s not under contract: %s" % (k, why))
 
 
+INT_COMPOSITES = ["2 * rbf", "rbf * 2", "const(3) * rbf", "const(3) * rbf + rbf", "(2 * rbf) * rq", "(2 * rbf) ** 2", "2 * (rbf + rq)", "const(1) * (const(2) * rbf)"]
+
+
+def _native_int_composite(expr):
+    import ciderpress.models.kernels as K
+    env = {"rbf": K.DiffRBF(length_scale=np.array([0.9, 1.3])), "rq": K.DiffRQ(alpha=1.5, length_scale=1.1) if hasattr(K, "DiffRQ") else K.DiffRBF(length_scale=np.array([0.7, 1.9])),
+           "const": lambda c: K.DiffConstantKernel(c)}
+    return eval(expr, {"__builtins__": {}}, env)
+
+
+def replay_int_composite(expr):
+    def replay(wit):
+        from pyvc import native
+        native.install_shim()
+        kern = _native_int_composite(expr)
+        rng = np.random.RandomState(8)
+        X, Y = rng.rand(4, 2) + 0.2, rng.rand(3, 2) + 0.2
+        k, dk = kern.k_and_deriv(X, Y)
+        ref = kern(X, Y)
+        h = 1e-6
+        fd = np.zeros(k.shape + (X.shape[1],))
+        for f in range(X.shape[1]):
+            Xp, Xm = X.copy(), X.copy()
+            Xp[:, f] += h
+            Xm[:, f] -= h
+            fd[:, :, f] = (kern(Xp, Y) - kern(Xm, Y)) / (2 * h)
+        ev, ed = float(np.max(np.abs(k - ref))), float(np.max(np.abs(np.asarray(dk, dtype=float) - fd)))
+        return {"reproduced": bool(ev > 1e-10 or ed > 1e-5), "composite": expr, "max |k - kernel(X, Y)|": ev, "max |input gradient - central difference|": ed, "gradient dtype": str(np.asarray(dk).dtype)}
+    return replay
+
+
+def unit_integer_constants(ctx):
+    """Machine types are outside assumption A1 (doubles as reals): a constant factor written as a Python int makes scikit-learn's constant kernel return an INTEGER array,
+    and a composite that builds its gradient in a buffer of that type truncates it silently.  Bounded stand-in, evaluated natively: for the composites of INT_COMPOSITES
+    (integer constants as left / right factors, nested, in sums, products and powers) the values equal kernel(X, Y) and the input gradients equal central differences."""
+    from pyvc import native
+    native.install_shim()
+    fq = [KMOD + ":DiffProduct.k_and_deriv", KMOD + ":DiffSum.k_and_deriv", KMOD + ":DiffExponentiation.k_and_deriv", KMOD + ":DiffConstantKernel.k_and_deriv"]
+    for expr in INT_COMPOSITES:
+        try:
+            r = replay_int_composite(expr)({})
+        except Exception as e:
+            ctx.undecided("integer constants[%s] evaluates" % expr, "%s: %s" % (type(e).__name__, str(e)[:150]), fq)
+            continue
+        ctx.bounded("integer constants[%s]: values = kernel(X, Y) and input gradients = central differences (native, float64)" % expr, not r["reproduced"],
+                    "the composites of INT_COMPOSITES at one random sample", "%s" % {k: v for k, v in r.items() if k != "reproduced"}, witness={"composite": expr}, replay=replay_int_composite(expr))
+
+
 def units():
-    u = [("registry", unit_registry), ("composites", unit_composites)]
+    u = [("registry", unit_registry), ("composites", unit_composites), ("integer-constants", unit_integer_constants)]
     for r in leaf_recipes():
         if r.cls in ADDITIVE and (r.order > 2 or (r.cls == "DiffAddRQ" and "iso" in r.name.split("/"))):
             continue    # covered modularly (k0 contract + abstract additive machinery); end-to-end only at low order
